@@ -26,8 +26,17 @@ Shift(x, d) == {p + d : p \in x}
 HW(s) == s.w          \* mask weight, = Cardinality(s.mask) (computed once when the table is made)
 WithW(s) == [size |-> s.size, mask |-> s.mask, fix |-> s.fix, hk |-> s.hk, w |-> Cardinality(s.mask)]
 
-(* stable sort of an index list by mask weight, descending: ispecs.sort(key=hw, reverse=True) *)
-ListSort(S, l) ==
+(* stable sort of an index list by mask weight, descending: ispecs.sort(key=hw, reverse=True).   *)
+(* Written as a bucket pass per weight (TLC evaluates it in |weights| x |l| steps); ListSortDef is *)
+(* the defining formulation, DecTree.tla checks that both agree on every model table.              *)
+RECURSIVE Buckets(_, _, _)
+Buckets(S, l, ws) ==      \* ws: the distinct weights, as a descending sequence
+  IF ws = <<>> THEN <<>>
+  ELSE LET T(i) == HW(S[i]) = ws[1] IN SelectSeq(l, T) \o Buckets(S, l, Tail(ws))
+RECURSIVE DescSeq(_)
+DescSeq(X) == IF X = {} THEN <<>> ELSE LET m == CHOOSE m \in X : \A y \in X : y <= m IN <<m>> \o DescSeq(X \ {m})
+ListSort(S, l) == Buckets(S, l, DescSeq({HW(S[l[k]]) : k \in 1..Len(l)}))
+ListSortDef(S, l) ==
   LET n  == Len(l)
       rk == [k \in 1..n |-> Cardinality({m \in 1..n : HW(S[l[m]]) > HW(S[l[k]]) \/ (HW(S[l[m]]) = HW(S[l[k]]) /\ m < k)}) + 1]
   IN [r \in 1..n |-> l[CHOOSE k \in 1..n : rk[k] = r]]
@@ -72,14 +81,15 @@ Build(S, l0, P, Dev) ==
          lm == IF "NoAdjustInSetup" \in Dev
                THEN LET Q == [P EXCEPT !.E = 1] IN InterAll(S, l, Q) ELSE InterAll(S, l, P)
      IN IF lm = {} THEN Leaf(l)
-        ELSE LET key(i) == adj(S[i].fix, S[i]) \cap lm
-                 keys == {key(l[k]) : k \in 1..Len(l)}
+        ELSE LET ks   == [k \in 1..Len(l) |-> adj(S[l[k]].fix, S[l[k]]) \cap lm]      \* l[adjust(s.fix) & f].append(s)
+                 keys == {ks[k] : k \in 1..Len(l)}
+                 Class(x) == LET idx == SelectSeq([k \in 1..Len(l) |-> k], LAMBDA k : ks[k] = x)
+                             IN [j \in 1..Len(idx) |-> l[idx[j]]]
              IN IF Cardinality(keys) = 1 THEN Leaf(l)
                 ELSE Node(lm, [x \in keys |->
-                        LET T(i) == key(i) = x IN
-                        IF "DropLastOfBigClass" \in Dev /\ Len(SelectSeq(l, T)) >= P.leafmax
-                        THEN Build(S, SubSeq(SelectSeq(l, T), 1, Len(SelectSeq(l, T)) - 1), P, Dev)
-                        ELSE Build(S, SelectSeq(l, T), P, Dev)])
+                        IF "DropLastOfBigClass" \in Dev /\ Len(Class(x)) >= P.leafmax
+                        THEN Build(S, SubSeq(Class(x), 1, Len(Class(x)) - 1), P, Dev)
+                        ELSE Build(S, Class(x), P, Dev)])
 
 (* disassembler.__call__: key from the first maxlen units, walk, leaf scan   *)
 KeyOf(bytes, P) ==
@@ -106,22 +116,29 @@ Routed(S, lf, P) ==
   \A k \in 1..Len(lf.specs) : \A e \in 1..Len(lf.path) :
      LET s == S[lf.specs[k]]  f == lf.path[e][1]  x == lf.path[e][2]
      IN f \subseteq Adj(s.mask, s, P) /\ (Adj(s.fix, s, P) \cap f) = x
-Routing(S, T, P) == \A lf \in LeavesOf(T, <<>>) : Routed(S, lf, P)
+RoutingL(S, L, P) == \A lf \in L : Routed(S, lf, P)
+Routing(S, T, P) == RoutingL(S, LeavesOf(T, <<>>), P)
 
 (* no spec is lost or duplicated *)
-PartitionAll(S, T) ==
-  LET L == LeavesOf(T, <<>>) IN
-  /\ \A lf \in L : \A k \in 1..Len(lf.specs) : lf.specs[k] \in 1..Len(S)
-  /\ \A lf \in L : \A k, m \in 1..Len(lf.specs) : k # m => lf.specs[k] # lf.specs[m]
-  /\ \A i \in 1..Len(S) : Cardinality({lf \in L : \E k \in 1..Len(lf.specs) : lf.specs[k] = i}) = 1
+RECURSIVE ConcatSpecs(_)
+ConcatSpecs(L) == IF L = {} THEN <<>> ELSE LET lf == CHOOSE lf \in L : TRUE IN lf.specs \o ConcatSpecs(L \ {lf})
+RECURSIVE SumLens(_)
+SumLens(L) == IF L = {} THEN 0 ELSE LET lf == CHOOSE lf \in L : TRUE IN Len(lf.specs) + SumLens(L \ {lf})
+PartitionL(S, L) ==
+  LET ids == UNION {ToSet(lf.specs) : lf \in L} IN
+  /\ ids = 1..Len(S)                                  \* every spec is in some leaf, nothing else is
+  /\ SumLens(L) = Len(S)                              \* ... exactly once
+  /\ Cardinality(L) >= 1
+PartitionAll(S, T) == PartitionL(S, LeavesOf(T, <<>>))
 
 (* two specs that can both match some (long enough) input *)
 Overlap(a, b, P) == (Adj(a.fix, a, P) \cap Adj(b.mask, b, P)) = (Adj(b.fix, b, P) \cap Adj(a.mask, a, P))
 
 (* leaf order: no spec comes before a strictly more constrained one it overlaps with (property);  *)
 (* exactly the stable order (model-shaped, drift)                                                 *)
-LeafOrderW(S, T, P) == \A lf \in LeavesOf(T, <<>>) : \A k, m \in 1..Len(lf.specs) :
+LeafOrderWL(S, L, P) == \A lf \in L : \A k, m \in 1..Len(lf.specs) :
                           (k < m /\ HW(S[lf.specs[k]]) < HW(S[lf.specs[m]])) => ~Overlap(S[lf.specs[k]], S[lf.specs[m]], P)
-LeafOrderStable(S, T) == \A lf \in LeavesOf(T, <<>>) : \A k, m \in 1..Len(lf.specs) :
-                          k < m => Before(S, lf.specs[k], lf.specs[m])
+LeafOrderW(S, T, P) == LeafOrderWL(S, LeavesOf(T, <<>>), P)
+LeafOrderStableL(S, L) == \A lf \in L : \A k \in 1..(Len(lf.specs) - 1) : Before(S, lf.specs[k], lf.specs[k + 1])
+LeafOrderStable(S, T) == LeafOrderStableL(S, LeavesOf(T, <<>>))
 =============================================================================
